@@ -112,6 +112,11 @@ def diff_run(run, G, scen_args, prefix, nontrivial, label, known_key=None, tier=
         unknown = []
         for ln, idx, l, m in fails:
             key = (known_key(l, m) if getattr(known_key, "wants_model", False) else known_key(l)) if known_key else None
+            # a listed finding is behaviour of the pinned code, which the model reproduces: a failing case on which
+            # model and implementation *disagree* is something else and is never matched to a listed finding
+            mm, _, _ = parse_model(m) if m != "harness-side oracle" else (None, None, None)
+            if mm is not None and " ".join(mm.split()) != " ".join(split_case(l)[1].split()):
+                key = None
             hit = next((k for k in known if key is not None and k["key"] == key), None)
             if hit:
                 if hit["key"] not in reported_known:
